@@ -10,6 +10,8 @@
    user array `xrl_shared`, not copied: several threads hand the same Crystal_Struct to the library; NULL without one).
    `retain-<op>`: objects the op hands out — results AND the error object of a failing call, whatever the op — are kept
    alive and re-rendered at the end of the history (history harness only).
+   `add_compound_raw …`: add_compound_data on two mixtures the APPLICATION wrote into its own (stack) arrays — the op makes no other library call and no
+   allocation, so in a process without history add_compound_data itself is the first user of the heap.
    `AppErrno <n>` / `AppFe <0|1>` are not library calls: they stand for what the APPLICATION (or any libc / libm call it made) may leave in
    the calling thread between two library calls — errno = n, the floating-point exception flags all raised / all cleared.  A query is a
    function of its arguments: what it returns must not depend on either.
@@ -29,6 +31,16 @@
 #include "xraylib-error-private.h"
 #include "xrf_cross_sections_aux.h"
 
+/* Under MemorySanitizer (the third build of the C16 history harness, both tiers: library AND harness compiled with -fsanitize=memory) every scalar of a returned object is
+   tested for initialisation before it is rendered: a value the library never wrote is rendered as `UNINIT!` (and then unpoisoned, so that
+   the rendering itself goes on) — uninitialised output is the purest form of "depends on the call history". */
+#if defined(__has_feature)
+# if __has_feature(memory_sanitizer)
+#  include <sanitizer/msan_interface.h>
+#  define XRL_MSAN 1
+# endif
+#endif
+
 typedef struct { char *p; size_t n, cap; } obuf;
 
 static void ob_put(obuf *o, const char *fmt, ...) {
@@ -36,7 +48,13 @@ static void ob_put(obuf *o, const char *fmt, ...) {
   if (o->n < o->cap) { int k = vsnprintf(o->p + o->n, o->cap - o->n, fmt, ap); if (k > 0) o->n += (size_t)k; if (o->n >= o->cap) o->n = o->cap - 1; }
   va_end(ap);
 }
-static void ob_d(obuf *o, double d) { uint64_t b; memcpy(&b, &d, 8); ob_put(o, "x%016llx", (unsigned long long)b); }
+#ifdef XRL_MSAN
+# define XRL_UNINIT(o, pv) do { if (__msan_test_shadow((pv), sizeof *(pv)) != -1) { ob_put((o), "UNINIT!"); __msan_unpoison((pv), sizeof *(pv)); } } while (0)
+#else
+# define XRL_UNINIT(o, pv) do { } while (0)
+#endif
+static void ob_d(obuf *o, double d) { XRL_UNINIT(o, &d); uint64_t b; memcpy(&b, &d, 8); ob_put(o, "x%016llx", (unsigned long long)b); }
+static void ob_i(obuf *o, int v) { XRL_UNINIT(o, &v); ob_put(o, "%d", v); }           /* an int FIELD of a returned object */
 static void ob_s(obuf *o, const char *s) {
   if (!s) { ob_put(o, "~"); return; }
   ob_put(o, "\"");
@@ -73,31 +91,33 @@ static void ob_crystal(obuf *o, const Crystal_Struct *c) {
   ob_put(o, "crystal:"); ob_s(o, c->name);
   ob_put(o, " "); ob_d(o, c->a); ob_put(o, " "); ob_d(o, c->b); ob_put(o, " "); ob_d(o, c->c);
   ob_put(o, " "); ob_d(o, c->alpha); ob_put(o, " "); ob_d(o, c->beta); ob_put(o, " "); ob_d(o, c->gamma);
-  ob_put(o, " "); ob_d(o, c->volume); ob_put(o, " n=%d", c->n_atom);
+  ob_put(o, " "); ob_d(o, c->volume); ob_put(o, " n="); ob_i(o, c->n_atom);
   for (int i = 0; i < c->n_atom; i++) {
-    ob_put(o, " [%d ", c->atom[i].Zatom); ob_d(o, c->atom[i].fraction); ob_put(o, " "); ob_d(o, c->atom[i].x);
+    ob_put(o, " ["); ob_i(o, c->atom[i].Zatom); ob_put(o, " "); ob_d(o, c->atom[i].fraction); ob_put(o, " "); ob_d(o, c->atom[i].x);
     ob_put(o, " "); ob_d(o, c->atom[i].y); ob_put(o, " "); ob_d(o, c->atom[i].z); ob_put(o, "]");
   }
 }
+/* EVERY field of the object: nElements, nAtomsAll, molarMass, and per element Elements[i], massFractions[i], nAtoms[i] */
 static void ob_cd(obuf *o, const struct compoundData *cd) {
   if (!cd) { ob_put(o, "cd:~"); return; }
-  ob_put(o, "cd:n=%d ", cd->nElements); ob_d(o, cd->nAtomsAll); ob_put(o, " "); ob_d(o, cd->molarMass);
-  for (int i = 0; i < cd->nElements; i++) { ob_put(o, " [%d ", cd->Elements[i]); ob_d(o, cd->massFractions[i]); ob_put(o, " "); ob_d(o, cd->nAtoms[i]); ob_put(o, "]"); }
+  ob_put(o, "cd:n="); ob_i(o, cd->nElements); ob_put(o, " "); ob_d(o, cd->nAtomsAll); ob_put(o, " "); ob_d(o, cd->molarMass);
+  for (int i = 0; i < cd->nElements; i++) { ob_put(o, " ["); ob_i(o, cd->Elements[i]); ob_put(o, " "); ob_d(o, cd->massFractions[i]); ob_put(o, " "); ob_d(o, cd->nAtoms[i]); ob_put(o, "]"); }
 }
 static void ob_cdn(obuf *o, const struct compoundDataNIST *c) {
   if (!c) { ob_put(o, "cdn:~"); return; }
-  ob_put(o, "cdn:"); ob_s(o, c->name); ob_put(o, " n=%d ", c->nElements); ob_d(o, c->density);
-  for (int i = 0; i < c->nElements; i++) { ob_put(o, " [%d ", c->Elements[i]); ob_d(o, c->massFractions[i]); ob_put(o, "]"); }
+  ob_put(o, "cdn:"); ob_s(o, c->name); ob_put(o, " n="); ob_i(o, c->nElements); ob_put(o, " "); ob_d(o, c->density);
+  for (int i = 0; i < c->nElements; i++) { ob_put(o, " ["); ob_i(o, c->Elements[i]); ob_put(o, " "); ob_d(o, c->massFractions[i]); ob_put(o, "]"); }
 }
 static void ob_rnd(obuf *o, const struct radioNuclideData *r) {
   if (!r) { ob_put(o, "rnd:~"); return; }
-  ob_put(o, "rnd:"); ob_s(o, r->name); ob_put(o, " Z=%d A=%d N=%d Zx=%d nX=%d nG=%d", r->Z, r->A, r->N, r->Z_xray, r->nXrays, r->nGammas);
-  for (int i = 0; i < r->nXrays; i++) { ob_put(o, " [%d ", r->XrayLines[i]); ob_d(o, r->XrayIntensities[i]); ob_put(o, "]"); }
+  ob_put(o, "rnd:"); ob_s(o, r->name); ob_put(o, " Z="); ob_i(o, r->Z); ob_put(o, " A="); ob_i(o, r->A); ob_put(o, " N="); ob_i(o, r->N);
+  ob_put(o, " Zx="); ob_i(o, r->Z_xray); ob_put(o, " nX="); ob_i(o, r->nXrays); ob_put(o, " nG="); ob_i(o, r->nGammas);
+  for (int i = 0; i < r->nXrays; i++) { ob_put(o, " ["); ob_i(o, r->XrayLines[i]); ob_put(o, " "); ob_d(o, r->XrayIntensities[i]); ob_put(o, "]"); }
   for (int i = 0; i < r->nGammas; i++) { ob_put(o, " ("); ob_d(o, r->GammaEnergies[i]); ob_put(o, " "); ob_d(o, r->GammaIntensities[i]); ob_put(o, ")"); }
 }
 static void ob_list(obuf *o, char **l, int n) {
   if (!l) { ob_put(o, "list:~"); return; }
-  ob_put(o, "list:%d", n);
+  ob_put(o, "list:"); ob_i(o, n);
   for (int i = 0; l[i]; i++) { ob_put(o, " "); ob_s(o, l[i]); xrlFree(l[i]); }
   xrlFree(l);
 }
@@ -175,6 +195,20 @@ static int xrl_op(obuf *o, char **t, int nt, retained **keep) {
     if (a && b) { struct compoundData *c = add_compound_data(*a, op_pd(t[2]), *b, op_pd(t[4])); ob_cd(o, c); ob_put(o, " | "); ob_cd(o, a); ob_put(o, " | "); ob_cd(o, b); FreeCompoundData(c); }
     else ob_put(o, "unparsed");
     if (a) FreeCompoundData(a); if (b) FreeCompoundData(b); return 1; }
+  if (!strcmp(op, "add_compound_raw") && nt == 9) {
+    /* A nAtomsAll_A molarMass_A weight_A B nAtomsAll_B molarMass_B weight_B, with A, B = `Z/x<massFraction>/x<nAtoms>,…` (at most 16 elements):
+       the two mixtures are written out by the APPLICATION into its own stack arrays — no library call and no allocation is needed to make them,
+       so in a process without history add_compound_data itself is the first library call and the first user of the heap */
+    int el[2][16]; double mf[2][16], na[2][16]; struct compoundData in[2];
+    for (int s = 0; s < 2; s++) {
+      int n = 0; char *q = t[1 + 4 * s];
+      while (*q && n < 16) { char *e1; el[s][n] = (int)strtol(q, &e1, 10); if (*e1 != '/') break; mf[s][n] = op_pd(e1 + 1); char *e2 = strchr(e1 + 1, '/'); if (!e2) break;
+                             na[s][n] = op_pd(e2 + 1); n++; q = strchr(e2, ','); if (!q) break; q++; }
+      in[s].nElements = n; in[s].Elements = el[s]; in[s].massFractions = mf[s]; in[s].nAtoms = na[s]; in[s].nAtomsAll = op_pd(t[2 + 4 * s]); in[s].molarMass = op_pd(t[3 + 4 * s]);
+    }
+    if (in[0].nElements && in[1].nElements) { struct compoundData *c = add_compound_data(in[0], op_pd(t[4]), in[1], op_pd(t[8])); ob_cd(o, c); if (c) { if (ret) retain(keep, 2, c); else FreeCompoundData(c); } }
+    else ob_put(o, "unparsed");
+    return 1; }
   if (!strcmp(op, "NISTByName") && nt == 3) {
     SLOT(t[2]); struct compoundDataNIST *c = GetCompoundDataNISTByName(op_ps(t[1]), ep); ob_cdn(o, c); SLOT_END;
     if (c) { if (ret) retain(keep, 3, c); else FreeCompoundDataNIST(c); } return 1; }
@@ -202,7 +236,7 @@ static int xrl_op(obuf *o, char **t, int nt, retained **keep) {
   if (!strcmp(op, "Atomic_Factors") && nt == 7) {     /* Z E q debye flags slot; flags bit k set = pass pointer k */
     SLOT(t[6]); int fl = op_pi(t[5]); double f0 = -1, f1 = -1, f2 = -1;
     int r = Atomic_Factors(op_pi(t[1]), op_pd(t[2]), op_pd(t[3]), op_pd(t[4]), (fl & 1) ? &f0 : NULL, (fl & 2) ? &f1 : NULL, (fl & 4) ? &f2 : NULL, ep);
-    ob_put(o, "i:%d ", r); ob_d(o, f0); ob_put(o, " "); ob_d(o, f1); ob_put(o, " "); ob_d(o, f2); SLOT_END; return 1; }
+    ob_put(o, "i:"); ob_i(o, r); ob_put(o, " "); ob_d(o, f0); ob_put(o, " "); ob_d(o, f1); ob_put(o, " "); ob_d(o, f2); SLOT_END; return 1; }
   if (!strcmp(op, "PrivateArray") && nt == 4) {       /* name1 name2 slot: user-owned crystal array round trip */
     SLOT(t[3]); Crystal_Array *arr = Crystal_ArrayInit(8, ep);
     Crystal_Struct *c1 = op_crystal(t[1]), *c2 = op_crystal(t[2]);
